@@ -6,11 +6,36 @@ import os
 ROOT = os.path.dirname(os.path.dirname(os.path.abspath(__file__)))
 
 # id -> (technique, level text, level note, design ref, engine)
+SCHED_NOTE = "Trusted: Coq kernel; hand-written LTS transcription of Schedule/checkStatus/isDone/stage goroutine (atomic Visit justified by the proved stability of satisfied statuses); Go engine sched (controlled Runner, quiescence oracle is a wait hint only), python driver; sync/atomic sequential consistency. No axioms."
 CHECKS = {
+ "C01": ("Coq proof: record invariant over a labelled transition system of the scheduler, for all configurations and all event interleavings; observed runs of the real Scheduler under a checker-controlled Runner are accepted by the LTS inside Coq (accepts_sound) and monitored",
+         "C01_deps_finished_before_start holds for every configuration (any size, any graph) and every interleaving of visits, completions, cancels and exits (induction over event lists). The LTS is tied to scheduler.go by replaying every observed run (every DAG on <=4 stages, random to 8, all completion orders of stages in flight together up to a cap) through `accepts` in Coq.",
+         SCHED_NOTE, "DESIGN.md section 6.0, C01", "sched"),
+ "C02": ("Coq proof: statuses are unresolved or equal a declarative Final relation (invariant), Final is functional on acyclic graphs => confluence; error flag invariant; cancellation characterised by blocking paths; correspondence as C01 plus cross-order comparison",
+         "C02_timing_independent / C02_final_at_return / C02_cancel_exactly_dependants / C02_error_reported for all acyclic configurations, outcome assignments and interleavings. Tied to the code by the same accepted runs, the fixed-point monitor on observed final statuses and comparison of all explored completion orders of one configuration.",
+         SCHED_NOTE, "DESIGN.md section 6 C02", "sched"),
+ "C03": ("Coq proof: invariants (no double start, settled on return, eligible ran exactly once) and a progress theorem (one full polling pass strictly shrinks the Waiting set on acyclic well-formed graphs) over the scheduler LTS; correspondence as C01 plus injected Cancel / condition errors",
+         "Safety parts hold for all executions; termination is proved as progress + enabledness lemmas (every fair run returns), the wall-clock return is observed by the harness (Schedule must return within a bound in every explored run, cancelled runs included).",
+         SCHED_NOTE + " Fairness of the Go scheduler and termination of commands are hypotheses of the progress argument.", "DESIGN.md section 6 C03", "sched"),
+ "C04": ("Coq proof: eligibility is stable under every event, so any stretch of the run containing a stage's visit starts it (C04_eligible_gets_started, C04_in_flight_together); observed in-flight sets at every quiescent point are compared with the model's eligible closure in Coq",
+         "For all configurations and interleavings: an eligible stage is started by the next pass whatever else happens, and a pass without completions puts all eligible stages in flight together. Tied to the code by checking, at every quiescent point of every explored run, that no eligible stage is unstarted (the controlled Runner releases nobody meanwhile = the rendezvous pipeline).",
+         SCHED_NOTE, "DESIGN.md section 6 C04", "sched"),
  "C05": ("Coq proof (DFS soundness/completeness + incremental acyclicity invariant) over a hand-written model of graph.go; differential correspondence vs scheduler.NewExecutionGraph and the config loader, evaluated in Coq by vm_compute",
          "Theorems C05_reject_iff_cyclic / C05_accept_iff_acyclic / C05_exposes_edges hold for every stage list of any size and order (unbounded, by induction); the model is tied to the Go code by running both on every edge set on <=3 stages in every declaration order (exhaustive), every edge set on 4 stages (thorough) and random graphs up to 10 stages.",
          "Trusted: Coq kernel; the hand-written transcription of addEdge/cycleDfs (edge list == from/to maps); the Go engines graph/loadcfg and the python driver. No axioms.",
          "DESIGN.md section 6 C05", "graph"),
+ "C06": ("Coq proof: closed forms of the executed-command trace of a model of TaskRunner.Run (refinement of the recursive run to declarative first-failure specifications); differential correspondence against the real TaskRunner running real shell commands",
+         "C06_stops_at_first_failure / C06_runs_everything / C06_failing_before_prevents_commands / C06_condition_false_skips for every task (any number of commands, variations, hooks, any exit status). Tied to runner.go/compiler.go by running the statement's grammar exhaustively for small shapes plus random larger tasks through the real runner and comparing traces in Coq.",
+         "Trusted: Coq kernel; transcription of Run/before/execute/after/CompileTask with commands abstracted to (result, stdout); the fixed shape of generated shell commands; mvdan/sh and text/template; Go engine taskrun, python driver. No axioms.",
+         "DESIGN.md section 6.1, C06", "taskrun"),
+ "C07": ("Coq proof: error-iff-failed and exit-code theorems on the TaskRun model, prefix/exit-status laws of the CLI target loop model; differential correspondence: every exit status 0..255 through the real TaskRunner, target sequences through the real binary",
+         "C07_error_iff_failed, C07_exit_code_recorded, C07_success_records_zero, C07_skipped_records_nothing for all tasks; C07_cli_runs_prefix / C07_cli_exit_zero_iff_all_ok for all target lists. Tied to the code by all statuses 0..255 at command positions and by 1..3 CLI targets in every order through three invocation forms.",
+         "Trusted: as C06, plus Model/Cli.v transcription of the target loops and main's exit path; the python driver running the built binary. No axioms.",
+         "DESIGN.md section 6 C07", "taskrun+cli"),
+ "C08": ("Coq proof: non-interference invariant over all interleavings of the micro-steps (prepare / hand over) of any list of uses of shared tasks, with an explicit store model of aliasing; differential correspondence with a recording Runner under the real Scheduler.runStage",
+         "C08_isolation for every task table, every list of uses and every interleaving; layering laws for env/variables/dir. Tied to scheduler.go by pipelines of 2..6 stages sharing one task in every dependency arrangement (every DAG on <=3, sampled/all on 4) with distinct overrides and random durations, followed by a direct run and a second pipeline.",
+         "Trusted: Coq kernel; store/micro-step transcription of runStage (private copy); containers as association lists compared extensionally; Go engine stageov, python driver. No axioms.",
+         "DESIGN.md section 6 C08", "stageov"),
 }
 
 PENDING = {}
